@@ -5,6 +5,7 @@
  *        cat replay <prop> <variant> <locale> "<case line>"
  * stdout: one JSON object per line ({"t":"viol"...}, {"t":"stat"...}). */
 #include "cat.h"
+#include "../denylist.h"
 #include <signal.h>
 #include <setjmp.h>
 #include <sys/mman.h>
@@ -238,7 +239,7 @@ static void materialise(Ctx *x) {
         long ne = x->dbytes / f->w;
         if (c->d_pk == 2) {
             dirty_fill(x->dh, x->dbytes, f);
-            for (long i = 0; i < c->dxn && i < ne; i++) eset(x->dh, f->w, i, c->dx[i]);
+            for (long i = 0; i < c->dxn && i < ne; i++) eset(x->dh, f->w, i, f->w == 4 ? widen_x(c->dx[i]) : c->dx[i]);
         } else {
             dirty_fill(x->dh, x->dbytes, f);
             if (c->d_pk == 1) {
@@ -261,7 +262,7 @@ static void materialise(Ctx *x) {
         if (c->place == 0) memset(x->sh - 128, 0xEE, 128); else memset(x->sh + x->sbytes, 0xEE, 128);
         long ne = x->sbytes / f->sw;
         if (c->s_k == 2) {
-            for (long i = 0; i < ne; i++) eset(x->sh, f->sw, i, i < c->sxn ? c->sx[i] : 0xAA);
+            for (long i = 0; i < ne; i++) eset(x->sh, f->sw, i, i < c->sxn ? (f->sw == 4 ? widen_x(c->sx[i]) : c->sx[i]) : 0xAA);
         } else {
             for (long i = 0; i < ne; i++) eset(x->sh, f->sw, i, i < c->s_len ? pat(i, f->sw) : (i == c->s_len && c->s_term ? 0 : 'Z'));
         }
@@ -309,10 +310,11 @@ static void do_call(Ctx *x) {
     cur = x;
     errno = 0;
     if (sigsetjmp(jb, 0) == 0) {
-        armed = 1;
+        armed = 1; deny_hit = NULL; in_op = P == 12;
         x->rc = ((ufn)f->addr)(a[0], a[1], a[2], a[3], a[4], a[5], a[6], a[7], a[8], a[9]);
-        armed = 0;
+        in_op = 0; armed = 0;
     } else {
+        in_op = 0;
         sigset_t ss; sigemptyset(&ss); sigprocmask(SIG_SETMASK, &ss, NULL);
         x->fault = flt.kind; x->fault_pc = flt.pc;
         unsigned char *ad = flt.addr; x->fault_op = -1; x->fault_off = 0;
@@ -604,6 +606,7 @@ static void run_case(const Case *c) {
     }
     if (P == 12) {
         size_t first, nb;
+        if (deny_hit) { char b2[200]; report(&x, "process-wide-state|calls-%s|%s", deny_hit, relclass(&x, b2)); }
         if (tv_diff(&first, &nb)) {
             char sb[128], b2[200]; tv_symbolize(tv_seg_start() + first, sb, sizeof sb); char *pl = strchr(sb, '+'); if (pl) *pl = 0;
             report(&x, "static-footprint|changed=%s|%s", sb, relclass(&x, b2));
@@ -719,7 +722,7 @@ void gen_generic(int fi) {
         for (int place = 0; place < 2; place++)
         for (int idn = 0; idn < 2; idn++)
         for (int idm = 0; idm < ndmv; idm++)
-        for (int dbos = 0; dbos <= (has_bd ? 2 : 0); dbos++)
+        for (int dbos = 0; dbos <= (has_bd ? 3 : 0); dbos++)      /* 1: known = declared, 2: known but smaller than declared, 3: known and larger than declared (dest is the head of a bigger object) */
         for (int isn = 0; isn <= (has_src ? 1 : 0); isn++)
         for (int isl = 0; isl < nslv; isl++)
         for (int sbos = 0; sbos <= (has_bs ? 1 : 0); sbos++)
@@ -729,7 +732,7 @@ void gen_generic(int fi) {
             if ((f->flags & F_NONULL) && (idn || isn)) continue;   /* no documented null-pointer constraint */
             memset(&c, 0, sizeof c);
             c.fn = fi; c.place = place; c.d_null = dnull_v[idn];
-            c.dmax = dmv[idm].dmax; c.d_huge = dmv[idm].huge; c.d_bos = dbos;
+            c.dmax = dmv[idm].dmax; c.d_huge = dmv[idm].huge; c.d_bos = dbos == 3 ? 1 : dbos;
             if (!c.d_null && c.dmax && !c.d_huge && dbos != 2 && !isn && !slv[isl].huge && !ion && !al) continue; /* part 1 */
             if (al && (idn || isn || dmv[idm].huge >= 2)) continue;                  /* aliasing needs two real pointers */
             if (al && !(f->flags & F_QRY) && (P == 3 || P == 4 || P == 6 || P == 8)) continue;   /* identical pointers of a dest-writing call are C07's */
@@ -737,6 +740,7 @@ void gen_generic(int fi) {
             if (c.d_huge >= 2) { c.d_obj = 0; if (dbos) continue; }
             else if (c.d_huge == 1) c.d_obj = c.dmax;
             else c.d_obj = c.dmax;
+            if (dbos == 3) { if (c.d_huge || !c.dmax) continue; c.d_obj = c.dmax + 3 * f->w / f->dunit + (f->w < f->dunit); if ((c.d_obj * f->dunit) % f->w) continue; }
             if (dbos == 2) {   /* known object smaller than the declared dmax */
                 if (c.d_huge || c.dmax < 2) continue;
                 c.d_obj = c.dmax - f->w / f->dunit;                /* one element less than declared */
@@ -762,11 +766,41 @@ void gen_generic(int fi) {
     }
 }
 
+/* folding comparisons of wide strings: operands over characters whose full case folding is longer than the character
+ * (explicit content bytes F0..F3 stand for U+0390, U+03B0, U+00DF, U+FB03 in a wide operand), lengths 0..Lmax; the second operand is
+ * the first, the first with its last character replaced, or the first cut by one; bounds exact or with slack */
+void gen_foldcmp(int fi) {
+    const Fn *f = &fntab[fi];
+    if (strcmp(f->name, "wcsicmp_s") && strcmp(f->name, "wcsnatcmp_s")) return;
+    static const unsigned char al[] = { 0xF0, 's', 0xF2, 0xF1, 0xF3 };
+    int na = 3, lmax = g_tier ? 8 : 6; Case c;
+    for (int dl = 0; dl <= lmax; dl++) {
+        long n = 1; for (int i = 0; i < dl; i++) n *= na;
+        for (long di = 0; di < n; di++) {
+            unsigned char ds[16]; long t = di; for (int i = 0; i < dl; i++) { ds[i] = al[t % na]; t /= na; }
+            for (int var = 0; var < 2 + 5; var++) {
+                unsigned char ss[16]; int sl = dl; memcpy(ss, ds, dl);
+                if (var == 1) { if (!dl) continue; sl = dl - 1; }
+                if (var >= 2) { if (!dl) continue; if (ss[dl - 1] == al[var - 2]) continue; ss[dl - 1] = al[var - 2]; }
+                for (int dv = 0; dv < 2; dv++) for (int place = 0; place < 2; place++) {
+                    memset(&c, 0, sizeof c);
+                    c.fn = fi; c.place = place; c.dmax = dl + 1 + 2 * dv; c.d_obj = c.dmax; c.d_pk = 2; memcpy(c.dx, ds, dl); c.dx[dl] = 0; c.dxn = dl + 1; c.d_pl = dl;
+                    if (dv) { c.dx[dl + 1] = 'a'; c.dx[dl + 2] = 0; c.dxn = dl + 3; }
+                    c.s_k = 2; c.s_len = sl; c.s_term = 1; memcpy(c.sx, ss, sl); c.sx[sl] = 0; c.sxn = sl + 1; c.slen = sl + 1 + 2 * dv; c.s_obj = sl + 1;
+                    if (dv) c.slen = sl + 1;
+                    c.c = 1;      /* wcsnatcmp_s: fold_case */
+                    emit(&c);
+                }
+            }
+        }
+    }
+}
+
 /* query alphabet enumeration (C10 and the query side of C02/C05): explicit contents */
 void gen_query(int fi) {
     const Fn *f = &fntab[fi];
-    static const unsigned char alpha_q[] = { 'a', 0x80, 'A', '1', ' ', 'b' };
-    int na = g_tier ? 5 : 4;
+    static const unsigned char alpha_q[] = { 'a', 0x80, 'A', '_', '1', ' ', 'b' };    /* '_' sorts between the upper- and the lower-case letters */
+    int na = g_tier ? 6 : 5;
     int maxlen = g_tier ? 4 : 3;
     int has_src = has_tok(f, "S") || has_tok(f, "T");
     int has_l = has_tok(f, "l"), has_c = has_tok(f, "c");
@@ -781,7 +815,8 @@ void gen_query(int fi) {
         for (long di = 0; di < ndl; di++) {
             long t = di; for (int i = 0; i < dl; i++) { ds[i] = alpha_q[t % na]; t /= na; }
             /* dmax: exactly the string + terminator, with slack, or unterminated exact-fit */
-            for (int dv = 0; dv < 3; dv++) {
+            for (int dvx = 0; dvx < 3 + (has_tok(f, "bd") ? 2 : 0); dvx++) {
+                int qbos = dvx >= 3, dv = dvx == 3 ? 0 : dvx == 4 ? 2 : dvx;      /* 3,4: as 0 and 2 with the object size known to the library */
                 size_t dmax = dv == 0 ? dl + 1 : dv == 1 ? dl + 3 : dl;
                 if (dmax == 0) continue;
                 /* the second operand is the first one (same pointer), with every count up to the string's length + 1 */
@@ -789,7 +824,7 @@ void gen_query(int fi) {
                     memset(&c, 0, sizeof c);
                     c.fn = fi; c.place = place; c.dmax = dmax; c.d_obj = dmax; c.d_pk = 2; c.dxn = dl + 1; memcpy(c.dx, ds, dl); c.dx[dl] = 0;
                     if (dv == 1) { c.dxn = dl + 3; c.dx[dl + 1] = 'a'; c.dx[dl + 2] = 0; }
-                    c.d_pl = dl; c.alias = 1; c.slen = sl2; c.s_obj = dmax; c.s_len = dl; c.s_term = 1; c.s_k = 2; c.sxn = 0;
+                    c.d_pl = dl; c.d_bos = qbos; c.alias = 1; c.slen = sl2; c.s_obj = dmax; c.s_len = dl; c.s_term = 1; c.s_k = 2; c.sxn = 0;
                     emit(&c);
                 }
                 int sl_lo = 0, sl_hi = has_src ? maxlen : 0;
@@ -808,7 +843,7 @@ void gen_query(int fi) {
                                 c.d_pk = 2; c.dxn = dl + (dv != 2); memcpy(c.dx, ds, dl); if (dv != 2) c.dx[dl] = 0;
                                 if (dv == 1) { c.dxn = dl + 3; c.dx[dl + 1] = 'a'; c.dx[dl + 2] = 0; }
                                 if (dv == 2) c.d_pk = 2;
-                                c.d_pl = dl;
+                                c.d_pl = dl; c.d_bos = qbos;
                                 if (has_src) {
                                     c.s_k = 2; c.s_len = sln; c.s_term = 1;
                                     memcpy(c.sx, ss, sln); c.sx[sln] = 0; c.sxn = sln + 1;
@@ -943,6 +978,7 @@ int main(int argc, char **argv) {
         if ((fntab[i].flags & F_QRY) && (P == 2)) gen_query(i);
         if (P == 1 || P == 2 || P == 6 || P == 12) gen_prims(i);
         if (P == 10 || P == 2) gen_longcmp(i);
+        if (P == 10 || P == 1 || P == 2 || P == 5) gen_foldcmp(i);
         printf("{\"t\":\"fn\",\"fn\":\"%s\",\"evaluations\":%ld}\n", fntab[i].name, n_eval - e0);
     }
     if (!found) { fprintf(stderr, "unknown function %s\n", fname); return 2; }
